@@ -7,7 +7,13 @@ package ambient
 // krt collections, so that no Kubernetes client is needed.
 
 import (
+	corev1 "k8s.io/api/core/v1"
+	discovery "k8s.io/api/discovery/v1"
+	metav1 "k8s.io/apimachinery/pkg/apis/meta/v1"
+	gatewayv1 "sigs.k8s.io/gateway-api/apis/v1"
+
 	meshconfig "istio.io/api/mesh/v1alpha1"
+	networkingclient "istio.io/client-go/pkg/apis/networking/v1"
 	securityclient "istio.io/client-go/pkg/apis/security/v1"
 	"istio.io/istio/pilot/pkg/model"
 	"istio.io/istio/pkg/kube/krt"
@@ -55,3 +61,91 @@ func VerifPeerAuthPolicies(rootNamespace string, pas []*securityclient.PeerAuthe
 	}
 	return all.List(), keys
 }
+
+// ---- live graph (C10 part c): the same collections, kept running while PeerAuthentication objects
+// arrive, change and disappear. Everything downstream of the informers is the package's own code:
+// PolicyCollections, BuildNetworkCollections and Builder.WorkloadsCollection (pod workload builder ->
+// buildWorkloadPolicies -> fetchPeerAuthentications) with krt dependency tracking; the informers
+// themselves are replaced by static krt collections that emit the same add/update/delete events.
+
+// VerifPeerAuthGraph is a running ambient policy/workload graph over one pod.
+type VerifPeerAuthGraph struct {
+	stop      chan struct{}
+	peerAuths krt.StaticCollection[*securityclient.PeerAuthentication]
+	all       krt.Collection[model.WorkloadAuthorization]
+	workloads krt.Collection[model.WorkloadInfo]
+}
+
+// VerifNewPeerAuthGraph starts the graph with the given objects already present.
+func VerifNewPeerAuthGraph(rootNamespace string, initial []*securityclient.PeerAuthentication, wl VerifWorkload) *VerifPeerAuthGraph {
+	g := &VerifPeerAuthGraph{stop: make(chan struct{})}
+	opts := krt.NewOptionsBuilder(g.stop, "verif-c10-live", nil)
+	g.peerAuths = krt.NewStaticCollection[*securityclient.PeerAuthentication](nil, initial, opts.WithName("PeerAuthentications")...)
+	authz := krt.NewStaticCollection[*securityclient.AuthorizationPolicy](nil, nil, opts.WithName("AuthorizationPolicies")...)
+	waypoints := krt.NewStaticCollection[Waypoint](nil, nil, opts.WithName("Waypoints")...)
+	meshCfg := &MeshConfig{MeshConfig: &meshconfig.MeshConfig{RootNamespace: rootNamespace}}
+	mesh := krt.NewStatic(meshCfg, true, opts.WithName("MeshConfig")...)
+	authzDerived, all := PolicyCollections(authz, g.peerAuths, mesh, waypoints, opts, FeatureFlags{})
+	g.all = all
+
+	namespaces := krt.NewStaticCollection[*corev1.Namespace](nil, []*corev1.Namespace{
+		{ObjectMeta: metav1.ObjectMeta{Name: rootNamespace}},
+		{ObjectMeta: metav1.ObjectMeta{Name: wl.Namespace}},
+	}, opts.WithName("Namespaces")...)
+	gateways := krt.NewStaticCollection[*gatewayv1.Gateway](nil, nil, opts.WithName("Gateways")...)
+	options := Options{SystemNamespace: rootNamespace, ClusterID: "c1", DomainSuffix: "cluster.local"}
+	b := Builder{
+		DomainSuffix: options.DomainSuffix,
+		ClusterID:    options.ClusterID,
+		Networks:     BuildNetworkCollections(namespaces, gateways, options, opts),
+	}
+	pod := &corev1.Pod{
+		ObjectMeta: metav1.ObjectMeta{Name: "pod1", Namespace: wl.Namespace, Labels: wl.Labels, UID: "pod1-uid"},
+		Spec:       corev1.PodSpec{NodeName: "node1", ServiceAccountName: "sa1"},
+		Status: corev1.PodStatus{
+			Phase:      corev1.PodRunning,
+			PodIP:      "10.1.1.1",
+			PodIPs:     []corev1.PodIP{{IP: "10.1.1.1"}},
+			Conditions: []corev1.PodCondition{{Type: corev1.PodReady, Status: corev1.ConditionTrue}},
+		},
+	}
+	g.workloads = b.WorkloadsCollection(
+		krt.NewStaticCollection[*corev1.Pod](nil, []*corev1.Pod{pod}, opts.WithName("Pods")...),
+		krt.NewStaticCollection[Node](nil, nil, opts.WithName("Nodes")...),
+		mesh,
+		authzDerived,
+		krt.NewNamespaceIndex(g.peerAuths),
+		waypoints,
+		krt.NewStaticCollection[model.ServiceInfo](nil, nil, opts.WithName("WorkloadServices")...),
+		krt.NewStaticCollection[*networkingclient.WorkloadEntry](nil, nil, opts.WithName("WorkloadEntries")...),
+		krt.NewStaticCollection[*networkingclient.ServiceEntry](nil, nil, opts.WithName("ServiceEntries")...),
+		krt.NewStaticCollection[*discovery.EndpointSlice](nil, nil, opts.WithName("EndpointSlices")...),
+		namespaces,
+		opts,
+	)
+	return g
+}
+
+// Set creates or replaces a PeerAuthentication (informer add / update event).
+func (g *VerifPeerAuthGraph) Set(pa *securityclient.PeerAuthentication) { g.peerAuths.UpdateObject(pa) }
+
+// Delete removes a PeerAuthentication (informer delete event).
+func (g *VerifPeerAuthGraph) Delete(namespace, name string) {
+	g.peerAuths.DeleteObject(namespace + "/" + name)
+}
+
+// Synced reports whether the derived collections have processed their initial state.
+func (g *VerifPeerAuthGraph) Synced() bool { return g.all.HasSynced() && g.workloads.HasSynced() }
+
+// Snapshot returns what node proxies would be sent now: every policy, and per workload uid the
+// policy references of the workload.
+func (g *VerifPeerAuthGraph) Snapshot() ([]model.WorkloadAuthorization, map[string][]string) {
+	refs := map[string][]string{}
+	for _, w := range g.workloads.List() {
+		refs[w.Workload.GetUid()] = append([]string(nil), w.Workload.GetAuthorizationPolicies()...)
+	}
+	return g.all.List(), refs
+}
+
+// Close stops every collection of the graph.
+func (g *VerifPeerAuthGraph) Close() { close(g.stop) }
